@@ -17,6 +17,7 @@ import random
 from . import common
 from .common import cfg_consts
 from . import c01
+from . import sysrepo
 
 JSON_OPS = {"jset", "jdel", "jget"}
 SCRIPTABLE = {"set", "fset", "del", "pdel", "drop", "rename", "expire", "persist", "get", "ttl", "exists", "fget",
@@ -182,11 +183,16 @@ def run(ctx):
     rng = random.Random(ctx.seed)
     if ctx.replay:
         p = json.load(open(ctx.replay))
+        if p.get("kind") in ("systrace", "suite-table"):
+            sysrepo.run(ctx, locking_mc, LOCK_TABLE_INTENDED)
+            return
         runs = os.path.join(ctx.scratch, "replay_runs.ndjson")
         open(runs, "w").write((p["run"] + "\n") * 20)      # schedules differ from run to run: repeat
         record_and_validate(ctx, "replay", runs)
         return
     d = design(ctx)
+    # every command the repository's own suite issues, judged at its linearization point (SysTrace) and as a class table (Locking)
+    sysr = sysrepo.run(ctx, locking_mc, LOCK_TABLE_INTENDED)
     r, beh, n = gen_behaviours(ctx, "progs", ctx.pick(240, 6000), ctx.pick(60, 100))
     runs = os.path.join(ctx.scratch, "runs.ndjson")
     nr = make_runs(ctx, beh, runs, [2, 3, 4, 6, 8], 0.15, rng)
@@ -211,9 +217,10 @@ def run(ctx):
     with open(runs) as f:
         sample = f.readline()[:1500]
     common.write_evidence(ctx, "model_checking", {
-        "states": d["distinct"] + r3["distinct"] + ko["distinct"] + ko2["distinct"],
-        "transitions": d["generated"] + r3["generated"] + ko["generated"] + ko2["generated"],
-        "traces_validated_against_impl": st.get("runs", 0) + st2.get("runs", 0),
+        "states": d["distinct"] + r3["distinct"] + ko["distinct"] + ko2["distinct"] + sysr["tlc"]["distinct"] + sysr["tlc_table"]["distinct"],
+        "transitions": d["generated"] + r3["generated"] + ko["generated"] + ko2["generated"] + sysr["tlc"]["generated"] + sysr["tlc_table"]["generated"],
+        "traces_validated_against_impl": st.get("runs", 0) + st2.get("runs", 0) + 1,
+        "repository_suite_trace": {k: v for k, v in sysr.items() if k not in ("tlc", "tlc_table")},
         "steps_validated_in_lock_order": st.get("modelled", 0) + st2.get("modelled", 0),
         "logged_commands_compared_with_the_log": st.get("logged", 0) + st2.get("logged", 0),
         "scripts": {k: st.get(k, 0) + st2.get(k, 0) for k in ("scripts_eval", "scripts_evalro", "scripts_evalna", "evalna_interleaved")},
@@ -225,4 +232,6 @@ def run(ctx):
         "the order of steps is the order in which the hooks ran while the server lock was held (per-process counter taken under the lock)",
         "schedule coverage on the real code is what the OS scheduler produces over the runs; the design-level interleavings are exhaustive in TLC",
         "live fences / background expiry / flush are covered at design level (Locking) and by C08/C14/C05, not in these runs",
+        "repository-suite trace: the dataset projection is compared before/after a command only on servers holding <= 400 objects; "
+        "the suite's own verdicts are not used",
     ])
